@@ -292,7 +292,18 @@ def step (d : DState) (l : Line) : DState × List Verdict :=
                          bucketRegress := d.bucketRegress + (if regress then 1 else 0) }
       if res != "ok" then
         -- the host failed to process blocks of a legal chain
-        let cause := if spendAtMatHere then "spend_at_maturity_height" else resCause res
+        -- attribute the failure with the transcribed variants: which repair would have avoided it
+        let failsC (c : Cand) : Bool := match candView c with | .error _ => true | .ok _ => false
+        let isC (flatQ spentLt : Bool) (c : Cand) : Bool := match c with
+          | .flat v _ => flatQ && v.spentLt == spentLt
+          | .buck v _ => !flatQ && v.spentLt == spentLt
+        let fails (flatQ spentLt : Bool) : Bool := cands.any fun c => isC flatQ spentLt c && failsC c
+        let okc (flatQ spentLt : Bool) : Bool := cands.any fun c => isC flatQ spentLt c && !failsC c
+        let cause :=
+          if fails true false && okc true true then "spend_at_maturity_height"
+          else if fails false true && okc true true then "reorg_across_stat_buckets"
+          else if spendAtMatHere then "spend_at_maturity_height"
+          else resCause res
         let name := if isC17Failure res then s!"c17/update_never_fails/{cause}" else s!"c16/update_never_fails/{cause}"
         ({ d1 with dead := true }, [.monitor name res])
       else
@@ -316,7 +327,15 @@ def step (d : DState) (l : Line) : DState × List Verdict :=
           [.monitor "c16/balance_eq_mature_sum" s!"confirmed={bal},sum={matureSum tipH outx},height={tipH}"]
         let m4 : List Verdict := if imm == immatureSum tipH outx then [] else
           [.monitor "c16/immature_eq_sum" s!"immature={imm},sum={immatureSum tipH outx},height={tipH}"]
-        let cause := if d1.sawSpendAtMat then "/after_spend_at_maturity_height" else if d1.sawBucketRegress then "/reorg_across_stat_buckets" else ""
+        -- a drift is attributed to the transcribed defect that reproduces exactly the reported metrics
+        let metricsOf (c : Cand) : Option (Nat × Nat) := match candView c with | .ok (_, _, b, i) => some (b, i) | .error _ => none
+        let predicts (flatQ spentLt : Bool) : Bool := cands.any fun c =>
+          (match c with | .flat v _ => flatQ && v.spentLt == spentLt | .buck v _ => !flatQ && v.spentLt == spentLt) && metricsOf c == some (mbal, mimm)
+        let cause :=
+          if predicts true false then "/after_spend_at_maturity_height"
+          else if predicts false true then "/reorg_across_stat_buckets"
+          else if predicts false false then (if d1.sawSpendAtMat then "/after_spend_at_maturity_height" else "/reorg_across_stat_buckets")
+          else ""
         let m5 : List Verdict := if mbal == bal && mimm == imm then [] else
           [.monitor ("c16/metrics_eq_balance" ++ cause) s!"metric={mbal}/{mimm},balance={bal}/{imm}"]
         -- C16 announcement, on the implementation's own reports
